@@ -288,6 +288,11 @@ class Categorize(Factory, Container):
         """List of sub-aggregators, to make it possible to walk the tree."""
         return [self.value] + list(self.bins.values())
 
+    @property
+    def _fillableChildren(self):
+        # ``value`` is a never-filled template that zero()/+ share between containers
+        return list(self.bins.values())
+
     @inheritdoc(Container)
     def toJsonFragment(self, suppressName):
         if isinstance(self.value, Container):
